@@ -292,8 +292,12 @@ def _pool_run(batch):
                 # (AttributeError, NotImplementedError, UnboundLocalError ...): the code crashed on this input
                 out = f"IMPL-EXCEPTION {type(exc).__name__}: {str(exc)[:200]}".replace("\n", " ")
                 forced = ("unexpected-exception:" + type(exc).__name__, out + " || " + tb)
-            else:  # adapter failure (not an implementation error): surfaced, exit 2
-                out = "HARNESS-CRASH " + tb
+            else:
+                # raised in adapter code (typically: the adapter looked at an attribute, a key or an output format
+                # that the tree under test no longer provides).  The adapters never raise on the unchanged tree
+                # (that would be exit 2 on every run), so on a changed tree this is a failing input too.
+                out = f"ADAPTER-EXCEPTION {type(exc).__name__}: {str(exc)[:200]}".replace("\n", " ")
+                forced = ("adapter-exception:" + type(exc).__name__, out + " || " + tb)
         finally:
             signal.alarm(0)
         if forced is not None:
@@ -301,9 +305,16 @@ def _pool_run(batch):
             continue
         try:
             orc = _PROP.oracle(case, out)
-        except Exception:
-            orc = ("harness-crash", traceback.format_exc()[-800:].replace("\n", " | "))
-            out = "HARNESS-CRASH " + orc[1]
+        except Exception as exc:
+            tb = traceback.format_exc()[-800:].replace("\n", " | ")
+            if _raised_in_implementation(exc) and case.claimed:
+                # the oracle's own reference run of the real code (a control history, a fresh simulation ...) crashed
+                # inside the tree under test: the code fails on an input derived from this case
+                orc = ("unexpected-exception:" + type(exc).__name__, "in the oracle's reference run of the code: " + tb)
+            elif case.claimed:
+                orc = ("adapter-exception:oracle:" + type(exc).__name__, "the oracle could not read the answer: " + tb)
+            else:
+                orc = None
         try:
             nt = bool(_PROP.nontrivial(case, out))
         except Exception:
